@@ -650,6 +650,11 @@ def _len(interp, args, kwargs, node):
             return LinV(F.lin_term((v.var[0][3:6], v.var[1])))  # the size of a member of least / greatest size
         return LinV(F.lin_term(("len", v.var)))
     if isinstance(v, Sym):
+        lab = v.label
+        if isinstance(lab, tuple) and lab[:1] == ("slice",) and len(lab) == 4 and lab[2] is None and isinstance(lab[3], tuple) and lab[3][:1] == ("c",) \
+                and isinstance(lab[3][1], int) and lab[3][1] < 0 and isinstance(lab[1], tuple) and lab[1][:1] == ("elem",) and lab[1][2] == "partition":
+            # all but the last n layers of the stored partition (it has at least one layer wherever an operator reads it)
+            return LinV(F.lin_add(F.lin_term(("len", lab[1][1])), F.lin_const(lab[3][1])))
         return LinV(F.lin_term(("len", v.label)))
     return LinV(F.lin_term(("len", desc(v))))
 
@@ -753,6 +758,28 @@ def _chain(interp, args, kwargs, node):
     if any(isinstance(a, tuple) for a in args):
         interp.err(node, "itertools.chain over a symbolic argument list")
     return _chain_of(interp, list(args), node, "chain")
+
+
+@ext("functools.reduce")
+def _reduce(interp, args, kwargs, node):
+    """reduce(f, xs[, init]) over a sequence with known members: the fold, step by step."""
+    if len(args) not in (2, 3) or kwargs:
+        interp.err(node, "functools.reduce with these arguments")
+    segs = interp.segments(args[1], node)
+    if not all(sg[0] == "one" for sg in segs):
+        interp.log("call.unknown", node, func=Sym(("ext", "functools.reduce")), args=tuple(args), kwargs=dict(kwargs))
+        return Sym(("call", "functools.reduce", tuple(desc(a) for a in args), interp.fresh_id("c")))
+    items = [sg[1] for sg in segs]
+    if len(args) == 3:
+        acc = args[2]
+    elif items:
+        acc, items = items[0], items[1:]
+    else:
+        from .absint import RaiseSig
+        raise RaiseSig(ExcV("TypeError", ("reduce", "empty sequence with no initial value")), node)
+    for x in items:
+        acc = interp.call(args[0], [acc, x], {}, node)
+    return acc
 
 
 @ext("functools.partial")
@@ -1284,6 +1311,12 @@ def _counter(interp, args, kwargs, node):
     return Sym(("call", "collections.Counter", tuple(desc(a) for a in args), interp.fresh_id("c")))
 
 
+@ext("builtins.object")
+def _object(interp, args, kwargs, node):
+    """object(): a fresh value that is identical and equal to itself and to nothing else (the usual sentinel)."""
+    return Sym(("sentinel", ("local", interp.fresh_id("obj"))))
+
+
 @ext("builtins.str")
 def _str(interp, args, kwargs, node):
     if not args:
@@ -1794,11 +1827,13 @@ def objdict_method(interp, ref, o: HObj, name, args, kwargs, node):
         for k, v in o.attrs.items():
             segs.append(("one", Const(k) if name == "keys" else (v if name == "values" else TupleV((Const(k), v)))))
         return interp.alloc(HList(segs))
-    if name == "get":
+    if name == "get" and args:
         k = args[0]
         if isinstance(k, Const):
             return o.attrs.get(k.value, args[1] if len(args) > 1 else Const(None))
         return Sym(("attr-of", ("ref", ref.oid), desc(k)))
+    if name in ("get", "pop") and not args:
+        interp.err(node, f"{name}() without a key on an object of the repository")
     if name == "pop":
         k = args[0]
         if isinstance(k, Const):
